@@ -146,6 +146,7 @@ def vec_is_empty(se, env, pc, r):
     v = se.deref(env, r) if isinstance(r, Ref) else r
     if isinstance(v, list): return one(env, BoolVal(len(v) == 0))
     if isinstance(v, dict) and 'len' in v: return one(env, v['len'] == bv(0))
+    if is_bv(v) and v.size() == 8: return one(env, v == BitVecVal(0, 8))          # abstract values are 8-bit ids; id 0 stands for the empty value
     raise Inconclusive('is_empty of %r' % (v,))
 
 
